@@ -3,6 +3,7 @@ C02 — Cube-root digits and exponent are the exact truncated root.
 The constants 6, 45, 54, 171, 100, 1000 of `cubeRootManager` live in `Sqroot/Gen/V*.lean`.
 -/
 import Sqroot.Proofs.Root
+import Sqroot.Model.Api
 namespace Sqroot.Props.C02
 open Sqroot.Model Sqroot.Proofs
 
@@ -23,6 +24,16 @@ theorem cube_repr_indep (v : Version) (num den c : Nat) (hnum : 0 < num) (hden :
     (hc : 0 < c) (k : Nat) :
     rootPrefix (cubeMgr v) (c * num) (c * den) k = rootPrefix (cubeMgr v) num den k :=
   root_repr_indep (cube_mgr_correct v) num den c hnum hden hc k
+
+/-- r = 0 yields the zero number (IsZero, exponent 0, no digits) for every positive denominator;
+every other admissible radicand yields the lazily computed root of `num/den` with `0 < num`,
+`0 < den` — the hypotheses of the exactness theorem -/
+theorem zero_radicand_gives_zero_number (den : Int) (hden : 0 < den) : nRootFrac 0 den = .ok .zero :=
+  nRootFrac_zero den hden
+
+theorem positive_radicand_gives_root (num den : Int) (hnum : 0 < num) (hden : 0 < den) :
+    nRootFrac num den = .ok (.root num.toNat den.toNat) ∧ 0 < num.toNat ∧ 0 < den.toNat :=
+  nRootFrac_pos num den hnum hden
 
 example : (rootPrefix (cubeMgr .v3) 35223040952 1 8) = ([3, 2, 7, 8], 4) := by
   decide +kernel
